@@ -932,6 +932,24 @@ def _compare_roundtrip(src, what):
         want = {rid: v for rid, v in r0.get(u, {}).items() if v[1] == "External" or v[2] in p0}
         if want != r1.get(u, {}):
             return "%s: relationships of %s: %s became %s" % (what, u, want, r1.get(u, {}))
+    # file-like form, as callers hand streams over: a stream positioned at its end that already holds something -- the package it was
+    # opened from, or an earlier, longer save (zipfile writes from the cursor on; what follows the old content is the new package)
+    same = io.BytesIO(src + b"")
+    pkg_s = OpcPackage.open(same)
+    same.seek(0, 2)
+    pkg_s.save(same)
+    reused = io.BytesIO()
+    pkg_r = OpcPackage.open(io.BytesIO(src))
+    pkg_r.save(reused)
+    reused.write(b"PADDING" * 200)
+    pkg_r.save(reused)
+    for label, stream in (("the stream it was opened from (positioned at its end)", same), ("a stream that already holds an earlier save and more", reused)):
+        try:
+            pv, rv = _pkg_view(stream.getvalue())
+        except Exception as e:
+            return "%s: saved into %s: the stream does not open afterwards: %r" % (what, label, e)
+        if pv != p1 or rv != r1:
+            return "%s: saved into %s: the stream holds another package than a save into a fresh stream" % (what, label)
     pkg2 = OpcPackage.open(io.BytesIO(out.getvalue()))
     out2 = io.BytesIO()
     pkg2.save(out2)
